@@ -639,6 +639,10 @@ void PubSubIqBase::toXmlElementFromChild(QXmlStreamWriter *writer) const
 
 std::optional<PubSubIqBase::QueryType> PubSubIqBase::queryTypeFromDomElement(const QDomElement &element)
 {
+    if (element.namespaceURI() != ns_pubsub && element.namespaceURI() != ns_pubsub_owner) {
+        return std::nullopt;
+    }
+
     QueryType type;
     if (auto queryType = enumFromString<QueryType>(PUBSUB_QUERIES, element.tagName())) {
         type = *queryType;
